@@ -62,7 +62,7 @@ static std::string qstr(double x) {
   long long mant = (long long)std::ldexp(m, 53);  // exact
   e -= 53;
   while (mant % 2 == 0) { mant /= 2; e++; }
-  if (e >= 0) { if (e > 9) return "big"; return std::to_string(mant * (1LL << e)) + "/1"; }
+  if (e >= 0) { if (std::fabs(x) >= 4611686018427387904.0) return "big"; return std::to_string((long long)x) + "/1"; }
   if (-e > 62) return "tiny";
   return std::to_string(mant) + "/" + std::to_string(1LL << (-e));
 }
